@@ -1573,6 +1573,14 @@ func (e *Env) applySpecFunc(sf *SpecFunc, argExprs []SExpr) Val {
 					v.T = x.te.Zero(pt)
 				}
 			}
+			// an integer literal passed for a byte parameter in bit-vector mode
+			if want := x.te.SortOf(pt); want != "Int" && v.T.Sort == "Int" && strings.HasPrefix(want, "(_ BitVec") {
+				if n, ok := modelInt(v.T.S); ok && n >= 0 && n < 256 {
+					v.T = Term{fmt.Sprintf("#x%02x", n), want}
+				} else {
+					v.T = Term{fmt.Sprintf("((_ int2bv 8) %s)", v.T.S), want}
+				}
+			}
 			v.Typ = pt
 		}
 		args = append(args, v)
@@ -1630,11 +1638,12 @@ func (e *Env) applyRecSpecFunc(sf *SpecFunc, args []Val, rt types.Type) Val {
 		}
 		rs := x.te.SortOf(rt)
 		// reserve the name so recursive uses resolve to an application
-		x.d.DeclareFun(name, "")
+		ph := "; placeholder " + name
+		x.d.DeclareFun(name, ph)
 		body := ce.eval(sf.Body)
 		x.d.mu.Lock()
 		for i, f := range x.d.funs {
-			if f == "" {
+			if f == ph {
 				x.d.funs[i] = fmt.Sprintf("(define-fun-rec %s (%s) %s %s)", name, strings.Join(binders, " "), rs, body.T.S)
 			}
 		}
